@@ -11,7 +11,7 @@ import os
 from typing import Any, Dict, List, Optional, Tuple
 
 from . import repo  # noqa: F401  (puts the tree under test on sys.path)
-from .engine import Simulator, Violation
+from .engine import Simulator, Violation, _raised_in_code_under_test as raised_in_code_under_test
 from .simloop import P0, P1, P2, Budget, SimLoop
 
 from betterproto.grpc.util.async_channel import AsyncChannel, ChannelClosed, ChannelDone
@@ -29,6 +29,35 @@ RULES = {
     "C12.R6": "cancelling or timing out a blocked receiver surfaces as that cancellation / timeout "
               "and leaves the channel usable with no item lost",
 }
+
+
+def _from_stdlib(e: BaseException) -> bool:
+    """True if the innermost frame of the traceback is outside /verif (asyncio, queue, ... called by the code
+    under test): such an exception is the code's behaviour, not a harness bug."""
+    import os
+    tb = e.__traceback__
+    last = None
+    while tb is not None:
+        last = tb
+        tb = tb.tb_next
+    if last is None:
+        return False
+    here = os.path.dirname(os.path.abspath(__file__))
+    return not os.path.abspath(last.tb_frame.f_code.co_filename).startswith(here)
+
+
+class _TolerantFake:
+    """Base of the recording fakes handed to library code: any further (async) method of the real grpclib
+    stream / channel that a refactored library might call is a harmless no-op instead of an AttributeError
+    that would be blamed on the code under test."""
+
+    def __getattr__(self, name):
+        if name.startswith("__"):
+            raise AttributeError(name)
+
+        async def _noop(*a, **k):
+            return None
+        return _noop
 
 
 class Tok(tuple):
@@ -51,7 +80,7 @@ class _Run:
         if os.environ.get("VERIF_C12_POLICIES"):          # experiment knob: restrict the policy set
             allowed = [int(x) for x in os.environ["VERIF_C12_POLICIES"].split(",")]
             self.policy = allowed[self.policy % len(allowed)]
-        self.loop = SimLoop(tape, self.policy, max_steps=4000, max_time=10000.0)
+        self.loop = SimLoop(tape, self.policy, max_steps=20000, max_time=10000.0)
         self.loop.stats = stats
         self.ch: Optional[AsyncChannel] = None
         self.recv_tasks: Dict[str, asyncio.Task] = {}
@@ -59,8 +88,12 @@ class _Run:
         self.end: Dict[str, str] = {}          # receiver -> how it ended
         self.in_op: Dict[str, Optional[str]] = {}
         self.injected_cancel: set = set()
-        self.close_seq: Optional[int] = None   # seq of the first close() invocation
+        self.close_seq: Optional[int] = None   # seq of the first close() the harness itself invoked
         self.close_ret_seq: Optional[int] = None
+        self.closed_seen: Optional[int] = None  # seq of the first event at which ch.closed() was observed True
+        self.first_closer: Optional[str] = None
+        self.sent_before_own_close: set = set()
+        self.sf_items: set = set()             # items that travel through send_from (judged per call)
         self.cfg_line = ""
 
     # -- recording ---------------------------------------------------------------------------
@@ -69,6 +102,12 @@ class _Run:
                                  and isinstance(detail[0], str) and isinstance(detail[1], int)):
             detail = f"<foreign {type(detail).__name__}>"   # never let an address reach the trace
         self.seq += 1
+        if self.closed_seen is None and self.ch is not None:
+            try:
+                if self.ch.closed():
+                    self.closed_seen = self.seq       # the flag flipped before this event was recorded
+            except Exception:  # noqa: BLE001
+                pass
         self.events.append((self.seq, actor, kind, op, detail))
         return self.seq
 
@@ -85,7 +124,16 @@ class _Run:
 
     # -- actors ------------------------------------------------------------------------------
     def do_close(self, actor: str) -> None:
+        try:
+            if self.ch.closed():
+                # the statement says nothing about closing twice: the harness does not do it
+                self.ev(actor, "note", "close-skipped-already-closed")
+                return
+        except Exception:  # noqa: BLE001
+            pass
         s = self.ev(actor, "inv", "close")
+        if self.first_closer is None:
+            self.first_closer = actor
         if self.close_seq is None:
             self.close_seq = s
             if any(v in ("receive", "anext") for v in self.in_op.values()):
@@ -141,6 +189,8 @@ class _Run:
                 except asyncio.CancelledError:
                     raise
                 except Exception as e:  # noqa: BLE001
+                    if not raised_in_code_under_test(e):
+                        raise
                     self.ev(a, "raise", "send", (it, type(e).__name__))
                 else:
                     self.ev(a, "ret", "send", it)
@@ -148,129 +198,98 @@ class _Run:
                 finally:
                     self.in_op[a] = None
             return
+        # ---- send_from.  What the harness can OBSERVE of it: which items the implementation has pulled
+        # from the source so far, and the return / exception of the call.  An implementation may pull
+        # lazily, prefetch or materialise the source first, so a pulled item is only "invoked"; every
+        # pulled item counts as COMPLETED when the call returns normally - never earlier.
         run = self
+        pulled: List[Any] = []
+        self.sf_items.update(items)
+
+        def pull(k):
+            it = items[k]
+            pulled.append(it)
+            run.ev(a, "inv", "send", it)
+            return it
 
         class Src:
             k = 0
-
-            def _next(self):
-                if self.k > 0:
-                    run.ev(a, "ret", "send", items[self.k - 1])
-                    run._maybe_cancel_after_send(a, cfg)
-                if self.k == len(items):
-                    return None
-                it = items[self.k]
-                self.k += 1
-                run.ev(a, "inv", "send", it)
-                return it
 
             def __iter__(self):
                 return self
 
             def __next__(self):
-                it = self._next()
-                if it is None:
+                if self.k == len(items):
                     raise StopIteration
-                return it
+                self.k += 1
+                return pull(self.k - 1)
 
-        class ASrc(Src):
+        class ASrc:
+            k = 0
+
             def __aiter__(self):
                 return self
 
             async def __anext__(self):
                 await run.pause("src-pause")
-                it = self._next()
-                if it is None:
+                if self.k == len(items):
                     raise StopAsyncIteration
-                return it
+                self.k += 1
+                return pull(self.k - 1)
 
-            __iter__ = None
-            __next__ = None
+        def _gen():
+            for k in range(len(items)):
+                yield pull(k)
+
+        async def _agen():
+            for k in range(len(items)):
+                await run.pause("src-pause")
+                yield pull(k)
 
         await self.pause()
-        if mode in (3, 4):
-            # a real list / tuple: the harness cannot see the individual puts, so every item counts
-            # as invoked when send_from is invoked and as completed when send_from returns
-            batch = list(items) if mode == 3 else tuple(items)
-            self.in_op[a] = "send_from"
-            self.ev(a, "inv", "send_from", (len(items), cfg["close"], type(batch).__name__))
-            for it in items:
-                self.ev(a, "inv", "send", it)
-            try:
-                await ch.send_from(batch, close=cfg["close"])
-            except ChannelClosed:
-                for it in items:
-                    self.ev(a, "raise", "send", (it, "ChannelClosed"))
-            except asyncio.CancelledError:
-                raise
-            except Exception as e:  # noqa: BLE001
-                for it in items:
-                    self.ev(a, "raise", "send", (it, type(e).__name__))
-            else:
-                if cfg["close"] and self.close_seq is None:
-                    # closed inside the call, after the last put: every put completed before it
-                    for it in items:
-                        self.ev(a, "ret", "send", it)
-                    self.close_seq = self.ev(a, "inv", "close", "via send_from")
-                    self.close_ret_seq = self.close_seq
-                else:
-                    for it in items:
-                        self.ev(a, "ret", "send", it)
-                self.ev(a, "ret", "send_from", len(items))
-                self._maybe_cancel_after_send(a, cfg)
-            finally:
-                self.in_op[a] = None
-            return
-        if mode == 5:
-            def _gen():
-                for k, it in enumerate(items):
-                    run.ev(a, "inv", "send", it)
-                    yield it
-                    run.ev(a, "ret", "send", it)          # asked for the next one: the put returned
-                    run._maybe_cancel_after_send(a, cfg)
-                if cfg["close"] and run.close_seq is None:
-                    run.close_seq = run.ev(a, "inv", "close", "via send_from")
-                    run.close_ret_seq = run.close_seq
-            src = _gen()
-        elif mode == 6:
-            async def _agen():
-                for k, it in enumerate(items):
-                    await run.pause("src-pause")
-                    run.ev(a, "inv", "send", it)
-                    yield it
-                    run.ev(a, "ret", "send", it)
-                    run._maybe_cancel_after_send(a, cfg)
-                if cfg["close"] and run.close_seq is None:
-                    run.close_seq = run.ev(a, "inv", "close", "via send_from")
-                    run.close_ret_seq = run.close_seq
-            src = _agen()
+        if mode == 1:
+            src, kind = Src(), "iterator"
+        elif mode == 2:
+            src, kind = ASrc(), "async-iterator"
+        elif mode == 3:
+            src, kind = list(items), "list"
+        elif mode == 4:
+            src, kind = tuple(items), "tuple"
+        elif mode == 5:
+            src, kind = _gen(), "generator"
         else:
-            src = Src() if mode == 1 else ASrc()
-        self.in_op[a] = "send_from"
-        self.ev(a, "inv", "send_from", (len(items), cfg["close"]))
+            src, kind = _agen(), "async-generator"
+        if mode in (3, 4):
+            for k in range(len(items)):       # a real list / tuple cannot report pulls: all invoked up front
+                pull(k)
         closing = cfg["close"]
+        self.in_op[a] = "send_from"
+        self.ev(a, "inv", "send_from", (len(items), closing, kind))
         try:
-            if closing and mode in (1, 2):
-                # close=True closes inside the call; record the close invocation ourselves at
-                # the moment the source is exhausted (the last completion event precedes it).
-                orig = src._next
-
-                def _n():
-                    it = orig()
-                    if it is None and self.close_seq is None:
-                        self.close_seq = self.ev(a, "inv", "close", "via send_from")
-                        self.close_ret_seq = self.close_seq
-                    return it
-                src._next = _n
             await ch.send_from(src, close=closing)
         except ChannelClosed:
+            # whatever was pulled before the rejection may or may not have been put (an implementation that
+            # checks per item has put the earlier ones): the outcome of the individual items is unknown,
+            # the call as a whole is what gets judged
             self.ev(a, "raise", "send_from", "ChannelClosed")
         except asyncio.CancelledError:
             raise
         except Exception as e:  # noqa: BLE001
+            if not raised_in_code_under_test(e):
+                raise
             self.ev(a, "raise", "send_from", type(e).__name__)
         else:
-            self.ev(a, "ret", "send_from", getattr(src, "k", len(items)))
+            own_close = closing and self.first_closer is None
+            for it in pulled:
+                self.ev(a, "ret", "send", (it if not own_close else it))
+            if own_close:
+                # close=True: the call closes the channel itself, after its last put - so every item of
+                # this call was sent before that close, whatever the event order looks like from outside
+                self.first_closer = a
+                self.sent_before_own_close.update(pulled)
+                self.ev(a, "note", "closed-by-send_from")
+            self.ev(a, "ret", "send_from", len(pulled))
+            self._maybe_cancel_after_send(a, cfg)
         finally:
             self.in_op[a] = None
 
@@ -343,6 +362,8 @@ class _Run:
             self.ev(a, "raise", "actor", "CancelledError")
             self.end[a] = "cancelled" if a in self.injected_cancel else "error:CancelledError"
         except Exception as e:  # noqa: BLE001
+            if not raised_in_code_under_test(e) and not _from_stdlib(e):
+                raise                      # the harness's own fault: surfaces as HARNESS, not as a verdict
             self.ev(a, "raise", "actor", f"{type(e).__name__}: {e}")
             self.end[a] = f"error:{type(e).__name__}"
         finally:
@@ -351,12 +372,14 @@ class _Run:
     async def _stub_consumer(self, a: str) -> None:
         run = self
 
-        class FakeStream:
+        class FakeStream(_TolerantFake):
             async def send_message(self, m, end=False):
                 run.ev(a, "ret", "recv", m)
                 run.in_op[a] = None
                 await run.pause()
                 run.in_op[a] = "iterate"
+                if end:
+                    run.ev(a, "ret", "stream.end")
 
             async def end(self):
                 run.ev(a, "ret", "stream.end")
@@ -380,7 +403,7 @@ class _Run:
         n_resp = t.draw(3, "ss-responses")
         fail = t.draw(3, "ss-fail")           # 0: response side ends normally; 1-2: it raises
 
-        class FakeStream:
+        class FakeStream(_TolerantFake):
             async def send_request(self):
                 pass
 
@@ -391,6 +414,15 @@ class _Run:
             async def end(self):
                 run.ev(a, "ret", "stream.end")
                 run.end[a] = "end-of-iteration"
+
+            async def recv_message(self):
+                it = getattr(self, "_it", None)
+                if it is None:
+                    it = self._it = self._responses()
+                try:
+                    return await it.__anext__()
+                except StopAsyncIteration:
+                    return None
 
             def __aiter__(self):
                 return self._responses()
@@ -406,14 +438,14 @@ class _Run:
                     run.ev(a, "fault", "response-side-fails")
                     raise ConnectionResetError("response side failed (injected)")
 
-        class Ctx:
+        class Ctx(_TolerantFake):
             async def __aenter__(self):
                 return FakeStream()
 
             async def __aexit__(self, *exc):
                 return False
 
-        class FakeChannel:
+        class FakeChannel(_TolerantFake):
             def request(self, *args, **kw):
                 return Ctx()
 
@@ -425,10 +457,14 @@ class _Run:
         def adopt_sender():
             # the library's own sender task is the real receiver on the channel: track it, so that a
             # stranded one is noticed at quiescence (the response side may end before it does)
-            for tk in asyncio.all_tasks():
-                co = tk.get_coro()
-                if getattr(co, "__qualname__", "").endswith("_send_messages") and tk not in self.recv_tasks.values():
-                    self.recv_tasks[a + "-sender"] = tk
+            if a + "-sender" in self.recv_tasks:
+                return
+            claimed = list(self.recv_tasks.values())
+            cands = [tk for tk in asyncio.all_tasks()
+                     if getattr(tk.get_coro(), "__qualname__", "").endswith("_send_messages") and tk not in claimed]
+            if cands:
+                cands.sort(key=lambda tk: tk.get_name())      # sim-task-<n>: creation order, not identity
+                self.recv_tasks[a + "-sender"] = cands[0]
         try:
             async for _ in stub._stream_stream("/x/Y", self.ch, object, object):
                 adopt_sender()
@@ -446,7 +482,7 @@ class _Run:
             for t in list(self.send_tasks.values()):
                 try:
                     await asyncio.shield(t)
-                except BaseException:  # noqa: BLE001
+                except Exception:  # noqa: BLE001
                     pass
             await self.pause()
         else:
@@ -483,16 +519,20 @@ class _Run:
             else:
                 self.ev(a, "ret", "send", it)
         else:
-            self.ev(a, "inv", "send_from", (1, False))
+            self.sf_items.add(it)
             self.ev(a, "inv", "send", it)
+            self.ev(a, "inv", "send_from", (1, False, "list"))
             try:
                 await self.ch.send_from([it])
             except ChannelClosed:
-                self.ev(a, "raise", "send", (it, "ChannelClosed"))
+                self.ev(a, "raise", "send_from", "ChannelClosed")
             except Exception as e:  # noqa: BLE001
-                self.ev(a, "raise", "send", (it, type(e).__name__))
+                if not raised_in_code_under_test(e):
+                    raise
+                self.ev(a, "raise", "send_from", type(e).__name__)
             else:
                 self.ev(a, "ret", "send", it)
+                self.ev(a, "ret", "send_from", 1)
 
     async def drain(self, a: str) -> None:
         ch = self.ch
@@ -535,9 +575,8 @@ class _Run:
         try:
             return self._go(tape, loop)
         except Budget as b:
-            # a run that does not finish within the step budget is not a verdict on the code
-            # unless a closed channel keeps a receiver spinning; that is decided in _oracle.
-            raise Violation("C12.R4", "budget", f"simulated world did not settle: {b}")
+            # a run that does not settle within the step / virtual-time budget is not a verdict on the code
+            raise RuntimeError(f"BUDGET: simulated world did not settle: {b}")
         finally:
             self._dump_trace()
             loop.finish()
@@ -605,7 +644,7 @@ class _Run:
         self.ev("sim", "note", "quiescent", f"t={loop.time() / MS:g}ms")
 
         # -- scripted phase over: a closed channel must not have stranded anybody
-        closed_in_script = self.close_seq is not None
+        closed_in_script = bool(self.ch.closed())
         if closed_in_script:
             self._check_no_stranded("scripted phase")
         # -- drain phase
@@ -625,7 +664,10 @@ class _Run:
                 done = self.ch.done()
             except Exception as e:  # noqa: BLE001
                 raise Violation("C12.R4", f"done-raised-{type(e).__name__}", repr(e))
-            if done and all(t.done() for t in self.send_tasks.values()):
+            got_now = sum(1 for (_, a2, k2, op2, _) in self.events if a2 == a and k2 == "ret" and op2 == "recv")
+            if done and (all(t.done() for t in self.send_tasks.values()) or got_now == 0):
+                # done, and either every sender has finished or this round drained nothing: senders that
+                # were parked on a full buffer at close() may stay parked (the statement is silent)
                 break
             if rounds >= 12:
                 raise Violation("C12.R4", "never-done",
@@ -643,6 +685,15 @@ class _Run:
         for name, tk in list(self.send_tasks.items()) + [(t.get_name(), t) for t in aux]:
             if tk.done() and not tk.cancelled() and tk.exception() is not None:
                 raise tk.exception()
+        for name, tk in self.recv_tasks.items():
+            if tk.done() and not tk.cancelled() and tk.exception() is not None:
+                e = tk.exception()
+                if name.endswith("-sender") and (raised_in_code_under_test(e) or _from_stdlib(e)):
+                    # the library's own consumer task (_send_messages) died: its receiver side is judged
+                    rule = "C12.R6" if self._had_fault() else "C12.R4"
+                    raise Violation(rule, f"receiver-error:{type(e).__name__}",
+                                    f"the library's sender task {name} ended with {type(e).__name__}: {e}")
+                raise e
         self._oracle()
         return self._nontrivial(), loop.steps, loop.time()
 
@@ -672,9 +723,20 @@ class _Run:
         sent_raise: Dict[Any, str] = {}
         raise_seq: Dict[Any, int] = {}
         recvd: Dict[Any, List[Tuple[int, str]]] = collections.defaultdict(list)
-        close_seq = self.close_seq
-        close_ret = self.close_ret_seq
+        # "the channel was closed": the first close() the harness invoked, or the first moment closed() was
+        # observed True (a close performed inside send_from(close=True)) - whichever came first
+        cands = [x for x in (self.close_seq, self.closed_seen) if x is not None]
+        close_seq = min(cands) if cands else None
+        cands = [x for x in (self.close_ret_seq, self.closed_seen) if x is not None]
+        close_ret = min(cands) if cands else None
+        self.close_ret_eff = close_ret
         for (s, a, k, op, d) in self.events:
+            if op == "send_from" and k == "raise":
+                if d != "ChannelClosed":
+                    raise Violation("C12.R5", f"send_from-raised-{d}", f"{a}: send_from raised {d}")
+                if close_seq is None or s < close_seq:
+                    raise Violation("C12.R5", "ChannelClosed-before-close",
+                                    f"{a}: send_from raised ChannelClosed at #{s}, before any close (#{close_seq})")
             if op == "send" and k == "inv":
                 sent_inv[d] = s
             elif op == "send" and k == "ret":
@@ -690,8 +752,21 @@ class _Run:
                 raise Violation("C12.R1", "invented", f"received {it!r} which nobody sent")
             if len(lst) > 1:
                 raise Violation("C12.R1", "duplicate", f"item {it} received {len(lst)} times: {lst}")
-        # R5
+        # R5, per send_from call: a call invoked after close returned raises ChannelClosed and delivers nothing
+        if close_ret is not None:
+            raised_sf = {a for (s, a, k, op, d) in self.events if op == "send_from" and k == "raise"}
+            for (s, a, k, op, d) in self.events:
+                if op == "send_from" and k == "inv" and s > close_ret:
+                    if a not in raised_sf:
+                        raise Violation("C12.R5", "send-after-close-accepted",
+                                        f"{a}: send_from invoked at #{s} after close returned at #{close_ret} did not raise ChannelClosed")
+                    leaked = [it for it in recvd if it[0] == a]
+                    if leaked:
+                        raise Violation("C12.R5", "rejected-send-delivered", f"{a}: send_from was rejected yet {leaked} delivered")
+        # R5, per send
         for it, s in sent_inv.items():
+            if it in self.sf_items:
+                continue
             if close_ret is not None and s > close_ret and not self._in_send_from_started_before_close(it, s):
                 if sent_raise.get(it) != "ChannelClosed":
                     raise Violation("C12.R5", "send-after-close-accepted",
@@ -725,7 +800,7 @@ class _Run:
                                     f"{a} saw end of channel at #{s} before any close (#{close_seq})")
         # R2
         for it, s in sent_ret.items():
-            if s < close_seq and it not in recvd:
+            if (s < close_seq or it in self.sent_before_own_close) and it not in recvd:
                 sig = "lost-after-cancel-or-timeout" if self._had_fault() else "lost"
                 rule = "C12.R6" if self._had_fault() else "C12.R2"
                 raise Violation(rule, sig, f"send of {it} returned at #{s}, before close #{close_seq}, "
@@ -757,7 +832,7 @@ class _Run:
         snd = it[0]
         for (s2, a, k, op, d) in self.events:
             if a == snd and op == "send_from" and k == "inv":
-                return s2 < self.close_ret_seq
+                return s2 < self.close_ret_eff
         return False
 
 
